@@ -22,6 +22,13 @@
 //	     stubbed (mode real; r must be the genesis amount) or with the looked-up
 //	     reference value replaced by r through the public UTXO cache (mode cache)
 //	     -> "<sanity> <context> <pool>"
+//	spend <ntx> [ <m> (idx seq)* <n> o1..on ]*
+//	     a real regnet node (harness/regnet) whose block 1 holds ONE funding transaction with eight
+//	     outputs of different values (1000 ELA, 0.01 ELA, ...) owned by account 1.  Each listed signed
+//	     TransferAsset spends the outputs idx.. of that funding transaction; the transactions are
+//	     checked one after the other on the same, initially empty, UTXO cache through the real
+//	     CheckTransactionSanity, CheckTransactionContext (real UTXOCache.GetTxReference -> store) and a
+//	     fresh TxPool.AppendToTxPool.                 -> "<sanity> <context> <pool>" per tx, joined by " ; "
 //	actcr <afterNFT> <n> o1..on <r>
 //	     ActivateProducer of an inactive CR member (committee state planted
 //	     in-process), real SanityCheck + real ContextCheck   -> "<sanity> <context>"
@@ -38,6 +45,7 @@ import (
 	"strings"
 
 	"elaverif/harness/hx"
+	"elaverif/harness/regnet"
 
 	"github.com/elastos/Elastos.ELA/account"
 	"github.com/elastos/Elastos.ELA/blockchain"
@@ -596,6 +604,128 @@ func execE2E(t []string) string {
 	return san + " " + ctx + " " + pl
 }
 
+// ---------------------------------------------------------------- real node, real reference lookup
+
+var (
+	rn       *regnet.Node
+	rnLedger *blockchain.Ledger
+	rnFound  common.Uint168
+	fundTx   common.Uint256
+	rnDir    string
+)
+
+// values of the eight outputs of the funding transaction (Lean: Driver/C01.lean `fundVals`)
+var fundVals = []common.Fixed64{100000000000, 1000000, 100000000000, 500000000, 1000000, 250000000000, 1, 100000000}
+
+func setupNode() {
+	if rn != nil {
+		return
+	}
+	setup()
+	myLedger, myFound := blockchain.DefaultLedger, blockchain.FoundationAddress
+	dir, err := os.MkdirTemp("", "c01node")
+	if err != nil {
+		panic("harness: " + err.Error())
+	}
+	rnDir = dir
+	n, err := regnet.NewNode(dir, regnet.Options{NoPoolEvents: true, Tweak: func(p *config.Configuration) {
+		p.PowConfiguration.CoinbaseMaturity = 0
+	}})
+	if err != nil {
+		panic("harness: regnet: " + err.Error())
+	}
+	var outs []regnet.Out
+	tot := common.Fixed64(0)
+	for _, v := range fundVals {
+		outs = append(outs, regnet.Out{To: 1, Value: v})
+		tot += v
+	}
+	outs = append(outs, regnet.Out{To: 0, Value: genesisAmount - tot - 10000})
+	fund, err := n.Transfer(0, []common2.OutPoint{{TxID: n.Genesis.Transactions[0].Hash(), Index: 0}}, outs, 1)
+	if err != nil {
+		panic("harness: fund: " + err.Error())
+	}
+	b1, err := n.Mine(n.Genesis, []interfaces.Transaction{fund})
+	if err != nil {
+		panic("harness: mine: " + err.Error())
+	}
+	if in, _, err := n.Deliver(b1); err != nil || !in {
+		panic(fmt.Sprint("harness: deliver block 1: ", err))
+	}
+	fundTx = fund.Hash()
+	rn = n
+	rnLedger, rnFound = blockchain.DefaultLedger, blockchain.FoundationAddress
+	blockchain.DefaultLedger, blockchain.FoundationAddress = myLedger, myFound
+}
+
+type spendTx struct {
+	idx  []int
+	seq  []uint32
+	outs []common.Fixed64
+}
+
+func parseSpend(t []string) []spendTx {
+	ntx := atoi(t[1])
+	i := 2
+	var res []spendTx
+	for k := 0; k < ntx; k++ {
+		m := atoi(t[i])
+		i++
+		var st spendTx
+		for j := 0; j < m; j++ {
+			st.idx = append(st.idx, atoi(t[i]))
+			st.seq = append(st.seq, uint32(atoi(t[i+1])))
+			i += 2
+		}
+		st.outs, i = parseVec(t, i)
+		res = append(res, st)
+	}
+	return res
+}
+
+func execSpend(t []string) string {
+	setupNode()
+	myLedger, myFound, myParams := blockchain.DefaultLedger, blockchain.FoundationAddress, config.DefaultParams
+	blockchain.DefaultLedger, blockchain.FoundationAddress, config.DefaultParams = rnLedger, rnFound, *rn.Params
+	defer func() {
+		blockchain.DefaultLedger, blockchain.FoundationAddress, config.DefaultParams = myLedger, myFound, myParams
+	}()
+	rn.Chain.UTXOCache.CleanCache()
+	defer rn.Chain.UTXOCache.CleanCache()
+	var parts []string
+	for k, st := range parseSpend(t) {
+		mk := func() interfaces.Transaction {
+			var ins []*common2.Input
+			for j := range st.idx {
+				ins = append(ins, &common2.Input{Previous: common2.OutPoint{TxID: fundTx, Index: uint16(st.idx[j])}, Sequence: st.seq[j]})
+			}
+			var outs []*common2.Output
+			for _, v := range st.outs {
+				outs = append(outs, &common2.Output{AssetID: core.ELAAssetID, Value: v, ProgramHash: rn.Addr(2),
+					Type: common2.OTNone, Payload: &outputpayload.DefaultOutput{}})
+			}
+			tx := functions.CreateTransaction(common2.TxVersion09, common2.TransferAsset, 0, &payload.TransferAsset{},
+				[]*common2.Attribute{{Usage: common2.Nonce, Data: []byte{byte(k), 7}}}, ins, outs, 0, nil)
+			if err := rn.Sign(tx, 1); err != nil {
+				panic("harness: sign: " + err.Error())
+			}
+			return tx
+		}
+		tx := mk()
+		san := classify(rn.Chain.CheckTransactionSanity(2, tx), "ok")
+		tx.SetFee(-1)
+		_, cerr := rn.Chain.CheckTransactionContext(2, tx, 0, 0)
+		ctx := classify(cerr, "")
+		if cerr == nil {
+			ctx = fmt.Sprintf("ok:%d", int64(tx.Fee()))
+		}
+		pool := mempool.NewTxPool(rn.Params, rn.Chain.CkpManager)
+		pl := classify(pool.AppendToTxPoolWithoutEvent(mk()), "ok")
+		parts = append(parts, san+" "+ctx+" "+pl)
+	}
+	return strings.Join(parts, " ; ")
+}
+
 // ---------------------------------------------------------------- generator
 
 const ELA = 100000000
@@ -832,6 +962,12 @@ func gen(g *hx.Gen) {
 						s += uint64(x)
 					}
 					outs[1] = int64(s - uint64(outs[0]))
+					if r.Chance(40) { // outputs above / below the CR-assets inputs: this type has no fee check behind it
+						outs[1] += int64(r.Intn(2000)) - 1000
+						if outs[1] < 0 {
+							outs[1] = 0
+						}
+					}
 				}
 			}
 		case common2.CRAssetsRectify:
@@ -909,6 +1045,51 @@ func gen(g *hx.Gen) {
 		}
 		g.Emit("e2e %s %s %d %s", mode, vec(outs), rv, sb.String())
 	}
+	// real reference lookup: several outputs of ONE funding transaction, within one tx and across two
+	ns := g.N(150, 3000)
+	for i := 0; i < ns; i++ {
+		ntx := 1 + r.Intn(2)
+		var sb strings.Builder
+		fmt.Fprintf(&sb, "spend %d", ntx)
+		for k := 0; k < ntx; k++ {
+			m := 1 + r.Intn(3)
+			perm := r.Intn(8)
+			tot := int64(0)
+			fmt.Fprintf(&sb, " %d", m)
+			seen := map[int]bool{}
+			for j := 0; j < m; j++ {
+				idx := (perm + j*(1+r.Intn(3))) % 8
+				if r.Chance(10) && j > 0 {
+					idx = perm // duplicate outpoint
+				}
+				seq := r.Intn(2)
+				fmt.Fprintf(&sb, " %d %d", idx, seq)
+				if !seen[idx] {
+					tot += int64(fundVals[idx])
+				}
+				seen[idx] = true
+			}
+			// pay out what is really spent minus a fee around the minimum - or what a confused lookup would allow
+			var outs []int64
+			switch r.Intn(4) {
+			case 0:
+				outs = []int64{tot - 100}
+			case 1:
+				outs = []int64{tot - 99}
+			case 2:
+				outs = []int64{int64(m)*int64(fundVals[perm]) - 100} // every input valued like the first one looked up
+			default:
+				outs = []int64{tot / 2, tot - tot/2 - int64(r.Intn(300))}
+			}
+			for j := range outs {
+				if outs[j] < 0 {
+					outs[j] = 0
+				}
+			}
+			fmt.Fprintf(&sb, " %s", vec(outs))
+		}
+		g.Emit("%s", sb.String())
+	}
 }
 
 // ---------------------------------------------------------------- oracle (independent of the Lean model)
@@ -972,6 +1153,32 @@ func oracle(t []string, out string) *hx.Violation {
 			return v
 		}
 		return judge(f[2] == "ok", outs, refs, "TxPool.AppendToTxPool")
+	case "spend":
+		parts := strings.Split(out, " ; ")
+		for k, st := range parseSpend(t) {
+			if k >= len(parts) {
+				break
+			}
+			pf := strings.Fields(parts[k])
+			if len(pf) != 3 {
+				continue
+			}
+			seen := map[int]bool{}
+			var refs []common.Fixed64
+			for _, idx := range st.idx {
+				if !seen[idx] {
+					refs = append(refs, fundVals[idx])
+				}
+				seen[idx] = true
+			}
+			if v := judge(pf[0] == "ok" && strings.HasPrefix(pf[1], "ok:"), st.outs, refs,
+				fmt.Sprintf("tx %d: CheckTransactionSanity+CheckTransactionContext (references from the real UTXO cache / store)", k+1)); v != nil {
+				return v
+			}
+			if v := judge(pf[2] == "ok", st.outs, refs, fmt.Sprintf("tx %d: TxPool.AppendToTxPool", k+1)); v != nil {
+				return v
+			}
+		}
 	case "actcr":
 		if len(f) != 3 {
 			return nil
@@ -1023,12 +1230,18 @@ func exec(t []string) string {
 		return execE2E(t)
 	case "actcr":
 		return execActCR(t)
+	case "spend":
+		return execSpend(t)
 	}
 	panic("harness: unknown op " + t[0])
 }
 
 func main() {
 	hx.Main(&hx.Prop{Name: "C01", Gen: gen, Exec: exec, Oracle: oracle, Nontrivial: nontrivial, Bucket: bucket})
+	if rn != nil {
+		rn.Close()
+		os.RemoveAll(rnDir)
+	}
 	if ready {
 		if chain != nil {
 			chain.GetDB().Close()
